@@ -805,7 +805,8 @@ def convolve_templates(
     nbins = len(data)
     ntemps = len(temp_bank)
     convs = np.empty((ntemps, nbins), dtype=data.dtype)
-    data_pad = circular_pad_goodsize(data)
+    # Transform at the data length itself: padding the ring would repeat its start
+    data_pad = data
     data_fft = np.fft.rfft(data_pad)
     for itemp in range(ntemps):
         temp_kernel = temp_bank[itemp]
